@@ -234,6 +234,8 @@ def main():
             {"name": "WebIde", "path": "spec/WebIde.tla", "serves_properties": ["C19"], "kind_free_text": "TLA+ module + MC instances + two trace refinements; harness sub-commands webide-gen / webide-run"},
             {"name": "ParseSink", "path": "spec/ParseSink.tla", "serves_properties": ["C12"], "kind_free_text": "TLA+ module + MC + trace refinement; harness sub-commands parse-gen / parse-run"},
             {"name": "ControlAuth", "path": "spec/ControlAuth.tla", "serves_properties": ["C18"], "kind_free_text": "TLA+ module + MC + trace refinement; harness sub-commands ctrlauth-gen / ctrlauth-run"},
+            {"name": "DapStop", "path": "spec/DapStop.tla", "serves_properties": ["C17"], "kind_free_text": "TLA+ module (DebugControl abstraction + StopCoordinator + run-control handlers + wire/client) + MC instances (intended / as coded / 7 deviations that must be refuted) + script exporter + nondeterministic trace refinement with one TLC register per run; harness sub-commands dap-child / dap-run driving the real DebugAdapter::run_stdio over stdio"},
+            {"name": "SourceRegistry", "path": "spec/SourceRegistry.tla", "serves_properties": ["C13"], "kind_free_text": "TLA+ module of the key -> FileId map of trust_hir::project::Project + MC (one deviation that must fail) + trace refinement; harness sub-command projreg-run"},
             {"name": "Pairing", "path": "spec/Pairing.tla", "serves_properties": ["C18"], "kind_free_text": "TLA+ module of the pairing-token life cycle + MC instances (five broken variants must fail) + trace refinement; harness sub-commands pairing-gen / pairing-run (real PairingStore on a controllable clock, directly and behind the control endpoint)"},
             {"name": "ResourceFault", "path": "spec/ResourceFault.tla", "serves_properties": ["C08"], "kind_free_text": "TLA+ module of the fault path of the resource thread loop + MC (safety, liveness, one deviation that must fail) + trace refinement; harness sub-command resfault-run (real resource threads)"},
             {"name": "Determinism", "path": "spec/Determinism.tla", "serves_properties": ["C05"], "kind_free_text": "TLA+ trace spec; harness sub-command det-child run in several processes"},
